@@ -99,6 +99,7 @@ type delInfo struct {
 // judge runs the offline oracles over the recorded log.  quiescent says the
 // sentinel was answered (every earlier stanza went through the serve loop).
 func (w *world) judge(quiescent bool) {
+	w.c.Count("elements_the_handler_read_to_their_end", int(w.handlerRead.Load()))
 	c := w.c
 	evs := w.log.snapshot()
 	const inf = int64(1) << 60
@@ -138,6 +139,8 @@ func (w *world) judge(quiescent bool) {
 			d := &delInfo{rq: e.RQ, rn: e.RN, kind: e.Kind, typ: e.Typ, id: e.ID, note: e.Note, t: e.T}
 			dels = append(dels, d)
 			byRN[e.RN] = d
+		case "handler-incomplete":
+			c.Violate("route:handler:incomplete-element", "the <%s type=%q id=%q> (reply number %d) that reached the handler was not handed over whole: its reader ended %s — a handler that decodes what it is given cannot", e.Kind, e.Typ, e.ID, e.RN, e.Note)
 		case "handler":
 			if e.RN != 0 {
 				handlerCount[e.RN]++
